@@ -663,6 +663,15 @@ func runC09(c *Ctx) {
 			if e := p.CheckSignatureFrom(j.s.ocert); e == nil {
 				rep.Violation("C09/Certificate/verifies-under-other-key/"+j.s.family, "", w)
 			}
+			// the answer belongs to the pair (certificate, issuer), not to the history of the object: wrong issuer again
+			// (a failed check must not be remembered as passed), the right one, the wrong one once more
+			for rep2, iss := range []*gx509.Certificate{j.s.ocert, parent, j.s.ocert, parent} {
+				e := p.CheckSignatureFrom(iss)
+				if (iss == parent) != (e == nil) {
+					rep.Violation("C09/Certificate/repeated-check-on-one-parsed-object-changes-its-answer/"+j.s.family, fmt.Sprintf("check #%d of the sequence [other, issuer, other, issuer] after a first [issuer, other]: issuer=%v err=%v", rep2+1, iss == parent, e), w)
+					break
+				}
+			}
 			if j.s.family == "sm2" {
 				tbs, sig, _ := tbsAndSig(der)
 				var v struct{ R, S *big.Int }
@@ -878,6 +887,20 @@ func runC09(c *Ctx) {
 			t.Subject.Country = []string{"CN", "US"}
 			tc = append(tc, "multivalued")
 		}
+		// the (older) Attributes field next to the fields above: an unrelated attribute, or an extensionRequest attribute of
+		// its own that the generated extensions have to be merged into
+		var attrExt *pkix.Extension
+		switch i % 7 {
+		case 2:
+			attrExt = &pkix.Extension{Id: asn1.ObjectIdentifier{1, 3, 6, 1, 4, 1, 99999, 9}, Value: []byte{4, 3, 1, 2, 3}}
+			t.Attributes = []pkix.AttributeTypeAndValueSET{{Type: asn1.ObjectIdentifier{1, 2, 840, 113549, 1, 9, 14},
+				Value: [][]pkix.AttributeTypeAndValue{{{Type: attrExt.Id, Value: attrExt.Value}}}}}
+			tc = append(tc, "attributes=extensionRequest")
+		case 4:
+			t.Attributes = []pkix.AttributeTypeAndValueSET{{Type: asn1.ObjectIdentifier{1, 2, 840, 113549, 1, 9, 7},
+				Value: [][]pkix.AttributeTypeAndValue{{{Type: asn1.ObjectIdentifier{1, 2, 840, 113549, 1, 9, 7}, Value: "challenge"}}}}}
+			tc = append(tc, "attributes=challengePassword")
+		}
 		cls := fmt.Sprintf("csr/%s/%s/%s", s.family, algName(alg), strings.Join(tc, ","))
 		w := map[string]interface{}{"object": "csr", "signer": s.family, "algorithm": algName(alg), "template_class": strings.Join(tc, ",")}
 		var der []byte
@@ -913,6 +936,17 @@ func runC09(c *Ctx) {
 		}
 		if !sanOK {
 			rep.Violation("C09/CreateCertificateRequest/field-mismatch/SAN", fmt.Sprintf("dns %v email %v ip %v, template dns %v email %v ip %v", p.DNSNames, p.EmailAddresses, p.IPAddresses, t.DNSNames, t.EmailAddresses, t.IPAddresses), w)
+		}
+		if attrExt != nil {
+			found := false
+			for _, pe := range p.Extensions {
+				if pe.Id.Equal(attrExt.Id) && bytes.Equal(pe.Value, attrExt.Value) {
+					found = true
+				}
+			}
+			if !found {
+				rep.Violation("C09/CreateCertificateRequest/field-mismatch/extension-requested-through-Attributes", "", w)
+			}
 		}
 		for _, e := range t.ExtraExtensions {
 			found := false
